@@ -70,6 +70,11 @@ def sender_scenario(rng, tier, lengths=None, gen_prob=0.2):
             bs = 0
         stmin = rng.choice([0, 0, 0, 1, 0xF3]) if n < 200 else 0
         coop_rounds(ops, a, nframes, bs, stmin)
+        if 1 <= n <= 6000:
+            # ties the Lean reference `Spec.segment` (what the theorems are stated against) to the Python
+            # reference used by the judge: both must give the same frames for this payload/configuration
+            ops.append({'op': 'specseg', 'txdl': txdl, 'minlen': params.get('tx_data_min_length'),
+                        'padding': params.get('tx_padding'), 'prefix': ref.tx_prefix(ref.half(a, 'tx')), 'data': payload})
     return {'ops': ops}
 
 
